@@ -124,3 +124,1348 @@ Lemma c13_nonvacuous :
 Proof.
   exists W.ctx3, W.troot, W.v3. repeat split; vm_compute; reflexivity.
 Qed.
+
+(* ====================================================================== *)
+(* Part 2: induction principles and list combinators                      *)
+(* ====================================================================== *)
+Section GvalInd.
+  Variable P : gval -> Prop.
+  Hypothesis HNil : P GNil.
+  Hypothesis HBool : forall b, P (GBool b).
+  Hypothesis HInt : forall z, P (GInt z).
+  Hypothesis HFloat : forall m e, P (GFloat m e).
+  Hypothesis HStr : forall s, P (GStr s).
+  Hypothesis HTime : forall s l, P (GTime s l).
+  Hypothesis HPtr : forall v, P v -> P (GPtr v).
+  Hypothesis HSlice : forall l, Forall P l -> P (GSlice l).
+  Hypothesis HMap : forall l, Forall (fun kv => P (snd kv)) l -> P (GMap l).
+  Hypothesis HStruct : forall l, Forall (fun kv => P (snd kv)) l -> P (GStruct l).
+  Hypothesis HAny : forall j, P (GAny j).
+
+  Fixpoint gval_ind' (v : gval) : P v :=
+    match v with
+    | GNil => HNil | GBool b => HBool b | GInt z => HInt z | GFloat m e => HFloat m e
+    | GStr s => HStr s | GTime s l => HTime s l
+    | GPtr x => HPtr x (gval_ind' x)
+    | GSlice l =>
+        HSlice l ((fix go (l : list gval) : Forall P l :=
+                     match l with [] => Forall_nil _ | x :: r => Forall_cons x (gval_ind' x) (go r) end) l)
+    | GMap l =>
+        HMap l ((fix go (l : list (string * gval)) : Forall (fun kv => P (snd kv)) l :=
+                   match l with [] => Forall_nil _ | x :: r => Forall_cons x (gval_ind' (snd x)) (go r) end) l)
+    | GStruct l =>
+        HStruct l ((fix go (l : list (string * gval)) : Forall (fun kv => P (snd kv)) l :=
+                      match l with [] => Forall_nil _ | x :: r => Forall_cons x (gval_ind' (snd x)) (go r) end) l)
+    | GAny j => HAny j
+    end.
+End GvalInd.
+
+Section JsonInd.
+  Variable P : json -> Prop.
+  Hypothesis HNull : P JNull.
+  Hypothesis HBool : forall b, P (JBool b).
+  Hypothesis HNum : forall m e, P (JNum m e).
+  Hypothesis HStr : forall s, P (JStr s).
+  Hypothesis HArr : forall l, Forall P l -> P (JArr l).
+  Hypothesis HObj : forall l, Forall (fun kv => P (snd kv)) l -> P (JObj l).
+  Fixpoint json_ind' (j : json) : P j :=
+    match j with
+    | JNull => HNull | JBool b => HBool b | JNum m e => HNum m e | JStr s => HStr s
+    | JArr l =>
+        HArr l ((fix go (l : list json) : Forall P l :=
+                   match l with [] => Forall_nil _ | x :: r => Forall_cons x (json_ind' x) (go r) end) l)
+    | JObj l =>
+        HObj l ((fix go (l : list (string * json)) : Forall (fun kv => P (snd kv)) l :=
+                   match l with [] => Forall_nil _ | x :: r => Forall_cons x (json_ind' (snd x)) (go r) end) l)
+    end.
+End JsonInd.
+
+Fixpoint all2 {A B} (f : A -> B -> bool) (la : list A) (lb : list B) : bool :=
+  match la, lb with
+  | [], [] => true
+  | x :: r, y :: s => (f x y && all2 f r s)%bool
+  | _, _ => false
+  end.
+(* the prefix version (keys_aligned on slices and structs) *)
+Fixpoint all2p {A B} (f : A -> B -> bool) (la : list A) (lb : list B) : bool :=
+  match la, lb with
+  | x :: r, y :: s => (f x y && all2p f r s)%bool
+  | _, _ => true
+  end.
+Definition keq {V W} (f : V -> W -> bool) (p : string * V) (q : string * W) : bool :=
+  (seqb (fst p) (fst q) && f (snd p) (snd q))%bool.
+
+Lemma seqb_eq a b : seqb a b = true -> a = b.
+Proof. apply String.eqb_eq. Qed.
+Lemma seqb_refl a : seqb a a = true.
+Proof. apply String.eqb_refl. Qed.
+Lemma seqb_sym a b : seqb a b = seqb b a.
+Proof. apply String.eqb_sym. Qed.
+
+Lemma all2_length {A B} (f : A -> B -> bool) la lb : all2 f la lb = true -> List.length la = List.length lb.
+Proof.
+  revert lb; induction la as [|x r IH]; intros [|y s] H; simpl in *; try discriminate; auto.
+  apply andb_true_iff in H. destruct H. f_equal; auto.
+Qed.
+
+(* ---------- json_eqb ---------- *)
+Definition jarr_go := fix go (x y : list json) : bool :=
+  match x, y with
+  | [], [] => true
+  | a :: r, b :: s => (json_eqb a b && go r s)%bool
+  | _, _ => false
+  end.
+Definition jobj_go := fix go (x y : list (string * json)) : bool :=
+  match x, y with
+  | [], [] => true
+  | (k, a) :: r, (k', b) :: s => (String.eqb k k' && json_eqb a b && go r s)%bool
+  | _, _ => false
+  end.
+
+Lemma json_eqb_eq : forall x y, json_eqb x y = true -> x = y.
+Proof.
+  induction x using json_ind'; intros y E; destruct y; simpl in E; try discriminate.
+  - reflexivity.
+  - apply Bool.eqb_prop in E. congruence.
+  - apply andb_true_iff in E. destruct E as [E1 E2]. apply Z.eqb_eq in E1, E2. congruence.
+  - apply String.eqb_eq in E. congruence.
+  - f_equal. change (jarr_go l l0 = true) in E. revert l0 E.
+    induction H as [|x r Hx Hr IH]; intros [|y s] E; simpl in E; try discriminate; auto.
+    apply andb_true_iff in E. destruct E. f_equal; auto.
+  - f_equal. change (jobj_go l ms = true) in E. revert ms E.
+    induction H as [|[k x] r Hx Hr IH]; intros [|[k' y] s] E; simpl in E; try discriminate; auto.
+    apply andb_true_iff in E. destruct E as [E E3]. apply andb_true_iff in E. destruct E as [E1 E2].
+    apply String.eqb_eq in E1. simpl in Hx. f_equal; auto. f_equal; auto.
+Qed.
+
+Lemma json_eqb_refl : forall x, json_eqb x x = true.
+Proof.
+  induction x using json_ind'; simpl.
+  - reflexivity.
+  - apply Bool.eqb_reflx.
+  - rewrite !Z.eqb_refl. reflexivity.
+  - apply String.eqb_refl.
+  - induction H as [|x r Hx Hr IH]; auto. rewrite Hx. exact IH.
+  - induction H as [|[k x] r Hx Hr IH]; auto. simpl in Hx. rewrite String.eqb_refl, Hx. exact IH.
+Qed.
+
+(* ====================================================================== *)
+(* Part 3: vsim / keys_aligned — equations and type-free facts            *)
+(* ====================================================================== *)
+Definition vs_slice := fix go (la lb : list gval) {struct la} : bool :=
+  match la, lb with
+  | [], [] => true
+  | x :: r, y :: s => (vsim x y && go r s)%bool
+  | _, _ => false
+  end.
+Definition vs_kv := fix go (la lb : list (string * gval)) {struct la} : bool :=
+  match la, lb with
+  | [], [] => true
+  | (k, x) :: r, (k', y) :: s => (seqb k k' && vsim x y && go r s)%bool
+  | _, _ => false
+  end.
+Definition ka_slice := fix go (la lb : list gval) {struct la} : bool :=
+  match la, lb with
+  | x :: r, y :: s => (keys_aligned x y && go r s)%bool
+  | _, _ => true
+  end.
+Definition ka_map := fix go (la lb : list (string * gval)) {struct la} : bool :=
+  match la, lb with
+  | [], [] => true
+  | (k, x) :: r, (k', y) :: s => (seqb k k' && keys_aligned x y && go r s)%bool
+  | _, _ => false
+  end.
+Definition ka_struct := fix go (fa fb : list (string * gval)) {struct fa} : bool :=
+  match fa, fb with
+  | (_, x) :: r, (_, y) :: s => (keys_aligned x y && go r s)%bool
+  | _, _ => true
+  end.
+Definition snd2 {V W} (f : V -> W -> bool) (p : string * V) (q : string * W) : bool := f (snd p) (snd q).
+
+Lemma vs_slice_all2 la lb : vs_slice la lb = all2 vsim la lb.
+Proof. revert lb; induction la as [|x r IH]; intros [|y s]; simpl; auto. rewrite <- IH; reflexivity. Qed.
+Lemma vs_kv_all2 la lb : vs_kv la lb = all2 (keq vsim) la lb.
+Proof.
+  revert lb; induction la as [|[k x] r IH]; intros [|[k' y] s]; simpl; auto.
+  rewrite <- IH; reflexivity.
+Qed.
+Lemma ka_slice_all2 la lb : ka_slice la lb = all2p keys_aligned la lb.
+Proof. revert lb; induction la as [|x r IH]; intros [|y s]; simpl; auto. rewrite <- IH; reflexivity. Qed.
+Lemma ka_map_all2 la lb : ka_map la lb = all2 (keq keys_aligned) la lb.
+Proof.
+  revert lb; induction la as [|[k x] r IH]; intros [|[k' y] s]; simpl; auto.
+  rewrite <- IH; reflexivity.
+Qed.
+Lemma ka_struct_all2 la lb : ka_struct la lb = all2p (snd2 keys_aligned) la lb.
+Proof.
+  revert lb; induction la as [|[k x] r IH]; intros [|[k' y] s]; simpl; auto.
+  rewrite <- IH; reflexivity.
+Qed.
+
+Lemma vsim_slice la lb : vsim (GSlice la) (GSlice lb) = all2 vsim la lb.
+Proof. rewrite <- vs_slice_all2. destruct la, lb; reflexivity. Qed.
+Lemma vsim_map la lb : vsim (GMap la) (GMap lb) = all2 (keq vsim) la lb.
+Proof. rewrite <- vs_kv_all2. destruct la, lb; reflexivity. Qed.
+Lemma vsim_struct la lb : vsim (GStruct la) (GStruct lb) = all2 (keq vsim) la lb.
+Proof. rewrite <- vs_kv_all2. destruct la, lb; reflexivity. Qed.
+Lemma ka_slice_eq la lb : keys_aligned (GSlice la) (GSlice lb) = all2p keys_aligned la lb.
+Proof. rewrite <- ka_slice_all2. destruct la, lb; reflexivity. Qed.
+Lemma ka_map_eq la lb : keys_aligned (GMap la) (GMap lb) = all2 (keq keys_aligned) la lb.
+Proof. rewrite <- ka_map_all2. destruct la, lb; reflexivity. Qed.
+Lemma ka_struct_eq la lb : keys_aligned (GStruct la) (GStruct lb) = all2p (snd2 keys_aligned) la lb.
+Proof. rewrite <- ka_struct_all2. destruct la, lb; reflexivity. Qed.
+
+Lemma json_eqb_sym x y : json_eqb x y = json_eqb y x.
+Proof.
+  destruct (json_eqb x y) eqn:E.
+  - apply json_eqb_eq in E. subst. symmetry. apply json_eqb_refl.
+  - destruct (json_eqb y x) eqn:E2; auto. apply json_eqb_eq in E2. subst.
+    rewrite json_eqb_refl in E. discriminate.
+Qed.
+
+Lemma leaf_eq_sym a b : leaf_eq a b = leaf_eq b a.
+Proof.
+  destruct a, b; simpl; try reflexivity.
+  - destruct b, b0; reflexivity.
+  - apply Z.eqb_sym.
+  - rewrite (Z.eqb_sym m m0), (Z.eqb_sym e e0). reflexivity.
+  - apply String.eqb_sym.
+  - rewrite (String.eqb_sym text text0). destruct local, local0; reflexivity.
+Qed.
+
+Lemma all2_refl {A} (f : A -> A -> bool) l : Forall (fun x => f x x = true) l -> all2 f l l = true.
+Proof. induction 1; simpl; auto. rewrite H. exact IHForall. Qed.
+Lemma all2p_refl {A} (f : A -> A -> bool) l : Forall (fun x => f x x = true) l -> all2p f l l = true.
+Proof. induction 1; simpl; auto. rewrite H. exact IHForall. Qed.
+Lemma all2_sym {A} (f : A -> A -> bool) la lb :
+  Forall (fun x => forall y, f x y = f y x) la -> all2 f la lb = all2 f lb la.
+Proof.
+  intros H; revert lb; induction H as [|x r Hx Hr IH]; intros [|y s]; simpl; auto.
+  rewrite Hx, IH. reflexivity.
+Qed.
+Lemma all2p_sym {A} (f : A -> A -> bool) la lb :
+  Forall (fun x => forall y, f x y = f y x) la -> all2p f la lb = all2p f lb la.
+Proof.
+  intros H; revert lb; induction H as [|x r Hx Hr IH]; intros [|y s]; simpl; auto.
+  rewrite Hx, IH. reflexivity.
+Qed.
+Lemma vsim_refl : forall a, vsim a a = true.
+Proof.
+  induction a using gval_ind'; simpl; auto.
+  - destruct b; reflexivity.
+  - apply Z.eqb_refl.
+  - rewrite !Z.eqb_refl; reflexivity.
+  - apply String.eqb_refl.
+  - rewrite String.eqb_refl. destruct l; reflexivity.
+  - change (vsim (GSlice l) (GSlice l) = true). rewrite vsim_slice. apply all2_refl, H.
+  - change (vsim (GMap l) (GMap l) = true). rewrite vsim_map. apply all2_refl.
+    eapply Forall_impl; [|exact H]. intros p Hp; simpl in Hp. unfold keq. rewrite seqb_refl. exact Hp.
+  - change (vsim (GStruct l) (GStruct l) = true). rewrite vsim_struct. apply all2_refl.
+    eapply Forall_impl; [|exact H]. intros p Hp; simpl in Hp. unfold keq. rewrite seqb_refl. exact Hp.
+  - apply json_eqb_refl.
+Qed.
+
+Lemma ka_refl : forall a, keys_aligned a a = true.
+Proof.
+  induction a using gval_ind'; simpl; auto.
+  - change (keys_aligned (GSlice l) (GSlice l) = true). rewrite ka_slice_eq. apply all2p_refl, H.
+  - change (keys_aligned (GMap l) (GMap l) = true). rewrite ka_map_eq. apply all2_refl.
+    eapply Forall_impl; [|exact H]. intros p Hp; simpl in Hp. unfold keq. rewrite seqb_refl. exact Hp.
+  - change (keys_aligned (GStruct l) (GStruct l) = true). rewrite ka_struct_eq. apply all2p_refl.
+    eapply Forall_impl; [|exact H]. intros p Hp; simpl in Hp. exact Hp.
+Qed.
+
+Lemma vsim_sym : forall a b, vsim a b = vsim b a.
+Proof.
+  induction a using gval_ind'; intros b'.
+  1-6: destruct b' as [| | | | | | |l'|l'| |]; try reflexivity; try (destruct l'; reflexivity);
+       apply (leaf_eq_sym _ _).
+  - destruct b' as [| | | | | | |l'|l'| |]; try reflexivity; try (destruct l'; reflexivity). simpl. apply IHa.
+  - destruct b' as [| | | | | | |l'|l'| |]; try (destruct l; reflexivity).
+    + rewrite !vsim_slice. apply all2_sym, H.
+    + destruct l, l'; reflexivity.
+  - destruct b' as [| | | | | | |l'|l'| |]; try (destruct l; reflexivity).
+    + destruct l, l'; reflexivity.
+    + rewrite !vsim_map. apply all2_sym.
+      eapply Forall_impl; [|exact H]. intros p Hp q; simpl in Hp. unfold keq. rewrite seqb_sym, Hp. reflexivity.
+  - destruct b' as [| | | | | | |l'|l'|l'|]; try reflexivity; try (destruct l'; reflexivity).
+    rewrite !vsim_struct. apply all2_sym.
+    eapply Forall_impl; [|exact H]. intros p Hp q; simpl in Hp. unfold keq. rewrite seqb_sym, Hp. reflexivity.
+  - destruct b' as [| | | | | | |l'|l'| |]; try reflexivity; try (destruct l'; reflexivity). simpl. apply json_eqb_sym.
+Qed.
+
+Lemma ka_sym : forall a b, keys_aligned a b = keys_aligned b a.
+Proof.
+  induction a using gval_ind'; intros b'.
+  1-6: destruct b' as [| | | | | | |l'|l'| |]; reflexivity.
+  - destruct b'; try reflexivity. simpl. apply IHa.
+  - destruct b' as [| | | | | | |l'|l'| |]; try reflexivity.
+    rewrite !ka_slice_eq. apply all2p_sym, H.
+  - destruct b' as [| | | | | | |l'|l'| |]; try reflexivity.
+    rewrite !ka_map_eq. apply all2_sym.
+    eapply Forall_impl; [|exact H]. intros p Hp q; simpl in Hp. unfold keq. rewrite seqb_sym, Hp. reflexivity.
+  - destruct b' as [| | | | | | |l'|l'|l'|]; try reflexivity.
+    rewrite !ka_struct_eq. apply all2p_sym.
+    eapply Forall_impl; [|exact H]. intros p Hp q; simpl in Hp. unfold snd2. apply Hp.
+  - destruct b'; reflexivity.
+Qed.
+
+Lemma all2_impl_all2p {A} (f g : A -> A -> bool) la lb :
+  Forall (fun x => forall y, f x y = true -> g x y = true) la -> all2 f la lb = true -> all2p g la lb = true.
+Proof.
+  intros H; revert lb; induction H as [|x r Hx Hr IH]; intros [|y s] E; simpl in *; auto; try discriminate.
+  apply andb_true_iff in E. destruct E as [E1 E2]. rewrite (Hx _ E1). simpl. auto.
+Qed.
+Lemma all2_impl {A} (f g : A -> A -> bool) la lb :
+  Forall (fun x => forall y, f x y = true -> g x y = true) la -> all2 f la lb = true -> all2 g la lb = true.
+Proof.
+  intros H; revert lb; induction H as [|x r Hx Hr IH]; intros [|y s] E; simpl in *; auto; try discriminate.
+  apply andb_true_iff in E. destruct E as [E1 E2]. rewrite (Hx _ E1). simpl. auto.
+Qed.
+
+(* vsim already forces the side condition *)
+Lemma vsim_aligned : forall a b, vsim a b = true -> keys_aligned a b = true.
+Proof.
+  induction a using gval_ind'; intros b' E.
+  1-6: destruct b' as [| | | | | | |l'|l'| |]; try reflexivity; destruct l'; try reflexivity; discriminate.
+  - destruct b'; try reflexivity. simpl in *. auto.
+  - destruct b' as [| | | | | | |l'|l'| |]; try reflexivity.
+    rewrite vsim_slice in E. rewrite ka_slice_eq. eapply all2_impl_all2p; eauto.
+  - destruct b' as [| | | | | | |l'|l'| |]; try reflexivity.
+    + destruct l; [reflexivity|discriminate].
+    + rewrite vsim_map in E. rewrite ka_map_eq. eapply all2_impl; [|exact E].
+      eapply Forall_impl; [|exact H]. intros p Hp q; simpl in Hp. unfold keq. intros E'.
+      apply andb_true_iff in E'. destruct E' as [E1 E2]. rewrite E1. simpl. auto.
+  - destruct b' as [| | | | | | |l'|l'|l'|]; try reflexivity.
+    rewrite vsim_struct in E. rewrite ka_struct_eq. eapply all2_impl_all2p; [|exact E].
+    eapply Forall_impl; [|exact H]. intros p Hp q; simpl in Hp. unfold keq, snd2. intros E'.
+    apply andb_true_iff in E'. destruct E' as [E1 E2]. auto.
+  - destruct b'; reflexivity.
+Qed.
+
+Lemma vsim_empty : forall a b, vsim a b = true -> is_empty_value a = is_empty_value b.
+Proof.
+  intros a b E.
+  destruct a as [| | | | | | |l|l| |], b as [| | | | | | |l'|l'| |]; simpl in E; try discriminate; try reflexivity;
+    try (destruct l; try discriminate; try reflexivity; destruct l'; try discriminate; reflexivity);
+    try (destruct l'; try discriminate; reflexivity).
+  - apply Bool.eqb_prop in E. subst. reflexivity.
+  - apply Z.eqb_eq in E. subst. reflexivity.
+  - apply andb_true_iff in E. destruct E as [E _]. apply Z.eqb_eq in E. subst. reflexivity.
+  - apply String.eqb_eq in E. subst. reflexivity.
+  - destruct l as [|[k x] r], l' as [|[k' y] s]; simpl in E; try discriminate; reflexivity.
+Qed.
+
+(* ====================================================================== *)
+(* Part 4: facts about types, references and the supported fragment       *)
+(* ====================================================================== *)
+Lemma non_null_nullable t : t_nullable (non_null t) = false.
+Proof. destruct t; reflexivity. Qed.
+Lemma non_null_id t : t_nullable t = false -> non_null t = t.
+Proof. destruct t; destruct a; unfold t_nullable; simpl; intros ->; reflexivity. Qed.
+Lemma is_any_non_null t : is_any (non_null t) = is_any t.
+Proof. destruct t; reflexivity. Qed.
+Lemma is_ptr_non_null t : is_ptr (non_null t) = false.
+Proof. destruct t; reflexivity. Qed.
+Lemma is_ptr_nullable t : is_ptr t = true -> t_nullable t = true.
+Proof. unfold is_ptr. intros H. apply andb_true_iff in H. tauto. Qed.
+Lemma is_ptr_not_any t : is_ptr t = true -> is_any t = false.
+Proof. destruct t; try reflexivity. destruct k; try reflexivity. unfold is_ptr. rewrite andb_false_r. discriminate. Qed.
+Lemma is_ref_is_ptr t : is_ref t = true -> is_ptr t = t_nullable t.
+Proof. destruct t; try discriminate. intros _. unfold is_ptr. apply andb_true_r. Qed.
+
+Definition is_reflike (t : ty) : bool := match t with TRef _ _ _ | TConstRef _ _ _ _ => true | _ => false end.
+Lemma payload_non_null_ref ctx t : is_reflike t = true -> payload_type ctx (non_null t) = payload_type ctx t.
+Proof. destruct t; try discriminate; reflexivity. Qed.
+Lemma payload_self ctx t : is_reflike t = false -> payload_type ctx t = PTy t.
+Proof. destruct t; try discriminate; reflexivity. Qed.
+
+Definition obj_in (ctx : schemas) (o : object) : Prop :=
+  exists s k, In s ctx /\ In (k, o) (s_objects s).
+
+Lemma objs_get_in l k o : objs_get l k = Some o -> exists k', In (k', o) l.
+Proof.
+  induction l as [|[k' o'] r IH]; simpl; intros H; try discriminate.
+  destruct (seqb k' k).
+  - inversion H; subst. eexists; left; reflexivity.
+  - destruct (IH H) as [k2 H2]. eexists; right; exact H2.
+Qed.
+Lemma locate_object_in ctx p n o : locate_object ctx p n = Some o -> obj_in ctx o.
+Proof.
+  unfold locate_object, locate. destruct (find _ ctx) as [s|] eqn:F; try discriminate.
+  intros H. apply find_some in F. destruct F as [F _]. apply objs_get_in in H. destruct H as [k H].
+  exists s, k. split; assumption.
+Qed.
+Lemma ctx_supported_obj ctx o : ctx_supported ctx = true -> obj_in ctx o -> object_supported ctx o = true.
+Proof.
+  intros H [s [k [Hs Ho]]]. unfold ctx_supported in H. rewrite forallb_forall in H.
+  specialize (H s Hs). rewrite forallb_forall in H. exact (H _ Ho).
+Qed.
+Lemma resolve_fuel_obj ctx : forall fuel t rt,
+  resolve_fuel ctx fuel t = Some rt -> is_ref rt = false -> rt = t \/ exists o, obj_in ctx o /\ rt = o_type o.
+Proof.
+  induction fuel as [|f IH]; intros t rt H Hr; destruct t; simpl in H; try (inversion H; subst; left; reflexivity).
+  destruct (locate_object ctx pkg name) as [o|] eqn:L.
+  - destruct (IH _ _ H Hr) as [->|X]; [|right; exact X]. right. exists o. split; [|reflexivity].
+    eapply locate_object_in; eauto.
+  - inversion H; subst. discriminate.
+Qed.
+
+(* what a reference denotes is a supported, non-nullable object type *)
+Lemma via_supported ctx p n pt :
+  ctx_supported ctx = true ->
+  match resolve ctx (TRef attrs0 p n) with
+  | None => PUnm "reference cycle"
+  | Some (TRef _ _ _) => PUnm "dangling reference"
+  | Some rt => if t_nullable rt then PUnm "nullable object type"
+               else if is_concrete_scalar rt then PUnm "reference to a constant"
+               else PTy rt
+  end = PTy pt ->
+  ty_supported ctx pt = true /\ t_nullable pt = false.
+Proof.
+  intros Hc H. destruct (resolve ctx (TRef attrs0 p n)) as [rt|] eqn:R; try discriminate.
+  assert (Hr : is_ref rt = false) by (destruct rt; try reflexivity; discriminate).
+  assert (Hpt : t_nullable rt = false /\ rt = pt).
+  { destruct rt; try discriminate;
+      (destruct (t_nullable _) eqn:N; [discriminate|]; destruct (is_concrete_scalar _); [discriminate|];
+       inversion H; subst; split; reflexivity). }
+  destruct Hpt as [N ->]. unfold resolve in R.
+  destruct (resolve_fuel_obj _ _ _ _ R Hr) as [->|[o [Ho ->]]]; [discriminate|].
+  pose proof (ctx_supported_obj _ _ Hc Ho) as S. unfold object_supported in S.
+  apply andb_true_iff in S. destruct S as [S _]. apply andb_true_iff in S. destruct S as [_ S].
+  split; auto.
+Qed.
+
+Lemma payload_supported ctx t pt :
+  ctx_supported ctx = true -> ty_supported ctx t = true -> payload_type ctx t = PTy pt ->
+  ty_supported ctx pt = true.
+Proof.
+  intros Hc Hs Hp. destruct t; simpl in Hp; try (inversion Hp; subst; exact Hs).
+  - eapply via_supported; eauto.
+  - eapply via_supported; eauto.
+Qed.
+Lemma payload_ref_nonnull ctx t pt :
+  ctx_supported ctx = true -> is_reflike t = true -> payload_type ctx t = PTy pt -> t_nullable pt = false.
+Proof.
+  intros Hc Hr Hp. destruct t; try discriminate; simpl in Hp; eapply via_supported; eauto.
+Qed.
+
+Lemma supported_non_null ctx t : ty_supported ctx t = true -> ty_supported ctx (non_null t) = true.
+Proof.
+  destruct t; simpl; auto; intros H; apply andb_true_iff in H; destruct H as [_ H]; exact H.
+Qed.
+
+(* outside arrays, maps and `any`, a supported type is a pointer exactly when it is nullable *)
+Lemma nullable_is_ptr ctx t pt :
+  ty_supported ctx t = true -> is_any t = false -> payload_type ctx t = PTy pt ->
+  is_array pt = false -> is_map pt = false -> t_nullable t = is_ptr t.
+Proof.
+  intros Hs Ha Hp H1 H2. destruct t; simpl in Hs; try discriminate.
+  - inversion Hp; subst; discriminate.
+  - apply andb_true_iff in Hs. destruct Hs as [Hs _]. apply negb_true_iff in Hs.
+    unfold is_ptr. rewrite Hs. reflexivity.
+  - inversion Hp; subst; discriminate.
+  - unfold is_ptr. rewrite andb_true_r. reflexivity.
+  - unfold is_ptr. rewrite andb_true_r. reflexivity.
+  - apply andb_true_iff in Hs. destruct Hs as [Hs _]. apply negb_true_iff in Hs.
+    unfold is_ptr. rewrite Hs. reflexivity.
+  - unfold is_ptr. destruct k; simpl in *; try discriminate; rewrite andb_true_r; reflexivity.
+Qed.
+
+(* ====================================================================== *)
+(* Part 5: unfolding wt and eqc                                           *)
+(* ====================================================================== *)
+Definition wt_fields (ctx : schemas) := fix go (fs : list field) (fvs : list (string * gval)) {struct fvs} : bool :=
+  match fs, fvs with
+  | [], [] => true
+  | f :: fr, (n, fv) :: vr => (seqb n (f_name f) && wt ctx (f_type f) fv && go fr vr)%bool
+  | _, _ => false
+  end.
+Definition union_wt (pt : ty) (fvs : list (string * gval)) : bool :=
+  match union_scalars pt, union_refs pt with
+  | None, None => true
+  | _, _ => Nat.leb (List.length (filter (fun nv => negb (is_nil (snd nv))) fvs)) 1
+  end.
+Definition is_leaf (v : gval) : bool :=
+  match v with GBool _ | GInt _ | GFloat _ _ | GStr _ | GTime _ _ => true | _ => false end.
+Definition leaf_ty (v : gval) (pt : ty) : bool :=
+  match pt with
+  | TScalar _ k _ _ => wt_scalar pt k v
+  | TEnum _ vs => match enum_base vs with TScalar _ k _ _ as b => wt_scalar b k v | _ => false end
+  | _ => false
+  end.
+Definition no_nil_ptr (x : gval) : bool := match x with GNil | GPtr _ => false | _ => true end.
+
+Lemma wt_unfold ctx t v : wt ctx t v =
+  if is_any t then match v with GNil => true | GAny j => negb (json_eqb j JNull) | _ => false end else
+  match payload_type ctx t with
+  | PUnm _ => false
+  | PTy pt =>
+      match v with
+      | GNil => (is_ptr t || match pt with TArray _ _ | TMap _ _ _ => true | _ => false end)%bool
+      | GPtr x => (is_ptr t && (no_nil_ptr x && wt ctx (non_null t) x))%bool
+      | GSlice l =>
+          (negb (is_ptr t) && match pt with TArray _ et => forallb (wt ctx et) l | _ => false end)%bool
+      | GMap kvs =>
+          (negb (is_ptr t) &&
+           match pt with
+           | TMap _ _ vt => (str_nodup (map fst kvs) && forallb (fun kv => wt ctx vt (snd kv)) kvs)%bool
+           | _ => false
+           end)%bool
+      | GStruct fvs =>
+          (negb (is_ptr t) &&
+           match pt with
+           | TStruct _ _ fs => (union_wt pt fvs && wt_fields ctx fs fvs)%bool
+           | _ => false
+           end)%bool
+      | GAny _ => false
+      | _ => (negb (is_ptr t) && leaf_ty v pt)%bool
+      end
+  end.
+Proof. destruct v; try reflexivity. destruct v; reflexivity. Qed.
+
+(* ---- value-directed inversion ---- *)
+Lemma wt_any_inv ctx t j : wt ctx t (GAny j) = true -> is_any t = true.
+Proof.
+  rewrite wt_unfold. destruct (is_any t); auto. destruct (payload_type ctx t); discriminate.
+Qed.
+Lemma wt_ptr_inv ctx t x : wt ctx t (GPtr x) = true ->
+  is_any t = false /\ is_ptr t = true /\ (exists pt, payload_type ctx t = PTy pt) /\
+  no_nil_ptr x = true /\ wt ctx (non_null t) x = true.
+Proof.
+  rewrite wt_unfold. destruct (is_any t); try discriminate.
+  destruct (payload_type ctx t) as [pt|]; try discriminate. intros H.
+  apply andb_true_iff in H. destruct H as [H1 H]. apply andb_true_iff in H. destruct H as [H2 H3].
+  repeat split; eauto.
+Qed.
+Lemma wt_slice_inv ctx t l : wt ctx t (GSlice l) = true ->
+  is_any t = false /\ is_ptr t = false /\
+  exists a et, payload_type ctx t = PTy (TArray a et) /\ forallb (wt ctx et) l = true.
+Proof.
+  rewrite wt_unfold. destruct (is_any t); try discriminate.
+  destruct (payload_type ctx t) as [pt|]; try discriminate. intros H.
+  apply andb_true_iff in H. destruct H as [H1 H]. apply negb_true_iff in H1.
+  destruct pt; try discriminate. repeat split; eauto.
+Qed.
+Lemma wt_map_inv ctx t l : wt ctx t (GMap l) = true ->
+  is_any t = false /\ is_ptr t = false /\
+  exists a it vt, payload_type ctx t = PTy (TMap a it vt) /\ str_nodup (map fst l) = true /\
+                  forallb (fun kv => wt ctx vt (snd kv)) l = true.
+Proof.
+  rewrite wt_unfold. destruct (is_any t); try discriminate.
+  destruct (payload_type ctx t) as [pt|]; try discriminate. intros H.
+  apply andb_true_iff in H. destruct H as [H1 H]. apply negb_true_iff in H1.
+  destruct pt; try discriminate. apply andb_true_iff in H. destruct H. repeat split; eauto 8.
+Qed.
+Lemma wt_struct_inv ctx t fvs : wt ctx t (GStruct fvs) = true ->
+  is_any t = false /\ is_ptr t = false /\
+  exists a dh fs, payload_type ctx t = PTy (TStruct a dh fs) /\ union_wt (TStruct a dh fs) fvs = true /\
+                  wt_fields ctx fs fvs = true.
+Proof.
+  rewrite wt_unfold. destruct (is_any t); try discriminate.
+  destruct (payload_type ctx t) as [pt|]; try discriminate. intros H.
+  apply andb_true_iff in H. destruct H as [H1 H]. apply negb_true_iff in H1.
+  destruct pt; try discriminate. apply andb_true_iff in H. destruct H. repeat split; eauto 8.
+Qed.
+Lemma wt_leaf_inv ctx t v : is_leaf v = true -> wt ctx t v = true ->
+  is_any t = false /\ is_ptr t = false /\ exists pt, payload_type ctx t = PTy pt /\ leaf_ty v pt = true.
+Proof.
+  intros L. rewrite wt_unfold. destruct (is_any t); [destruct v; discriminate|].
+  destruct (payload_type ctx t) as [pt|]; try discriminate. intros H.
+  destruct v; try discriminate; apply andb_true_iff in H; destruct H as [H1 H]; apply negb_true_iff in H1;
+    repeat split; eauto.
+Qed.
+Lemma leaf_ty_shape v pt : leaf_ty v pt = true -> is_array pt = false /\ is_map pt = false /\ is_struct pt = false.
+Proof. destruct pt; try discriminate; auto. Qed.
+Lemma wt_nil_inv ctx t : wt ctx t GNil = true ->
+  is_any t = true \/
+  (is_any t = false /\ exists pt, payload_type ctx t = PTy pt /\
+     (is_ptr t = true \/ (is_ptr t = false /\ (is_array pt || is_map pt)%bool = true))).
+Proof.
+  rewrite wt_unfold. destruct (is_any t); auto. right. split; auto.
+  destruct (payload_type ctx t) as [pt|]; try discriminate. exists pt. split; auto.
+  destruct (is_ptr t); auto. right. split; auto. destruct pt; try discriminate; reflexivity.
+Qed.
+
+(* ---- type-directed canonical forms ---- *)
+Lemma cf_any ctx t v : is_any t = true -> wt ctx t v = true -> v = GNil \/ exists j, v = GAny j.
+Proof. intros Ha. rewrite wt_unfold, Ha. destruct v; try discriminate; eauto. Qed.
+Lemma cf_ptr ctx t v : is_any t = false -> is_ptr t = true -> wt ctx t v = true ->
+  v = GNil \/ exists x, v = GPtr x /\ no_nil_ptr x = true /\ wt ctx (non_null t) x = true.
+Proof.
+  intros Ha Hp. rewrite wt_unfold, Ha, Hp. destruct (payload_type ctx t); try discriminate.
+  destruct v; simpl; try discriminate; eauto.
+  intros H. apply andb_true_iff in H. right; eauto.
+Qed.
+Lemma cf_arr ctx t a et v : is_any t = false -> is_ptr t = false -> payload_type ctx t = PTy (TArray a et) ->
+  wt ctx t v = true -> v = GNil \/ exists l, v = GSlice l /\ forallb (wt ctx et) l = true.
+Proof.
+  intros Ha Hp Hpt. rewrite wt_unfold, Ha, Hp, Hpt. destruct v; simpl; try discriminate; eauto.
+Qed.
+Lemma cf_map ctx t a it vt v : is_any t = false -> is_ptr t = false -> payload_type ctx t = PTy (TMap a it vt) ->
+  wt ctx t v = true ->
+  v = GNil \/ exists l, v = GMap l /\ str_nodup (map fst l) = true /\ forallb (fun kv => wt ctx vt (snd kv)) l = true.
+Proof.
+  intros Ha Hp Hpt. rewrite wt_unfold, Ha, Hp, Hpt. destruct v; simpl; try discriminate; eauto.
+  intros H. apply andb_true_iff in H. right; eauto.
+Qed.
+Lemma cf_struct ctx t a dh fs v : is_any t = false -> is_ptr t = false -> payload_type ctx t = PTy (TStruct a dh fs) ->
+  wt ctx t v = true ->
+  exists fvs, v = GStruct fvs /\ union_wt (TStruct a dh fs) fvs = true /\ wt_fields ctx fs fvs = true.
+Proof.
+  intros Ha Hp Hpt. rewrite wt_unfold, Ha, Hp, Hpt. destruct v; simpl; try discriminate; eauto.
+  intros H. apply andb_true_iff in H. eauto.
+Qed.
+Lemma cf_leaf ctx t pt v : is_any t = false -> is_ptr t = false -> payload_type ctx t = PTy pt ->
+  is_array pt = false -> is_map pt = false -> is_struct pt = false ->
+  wt ctx t v = true -> is_leaf v = true.
+Proof.
+  intros Ha Hp Hpt H1 H2 H3. rewrite wt_unfold, Ha, Hp, Hpt.
+  destruct v; simpl; try discriminate; auto; destruct pt; discriminate.
+Qed.
+
+(* ---- eqc ---- *)
+Definition eq_arr (ctx : schemas) (et : ty) := fix go (la lb : list gval) {struct la} : bool :=
+  match la, lb with
+  | [], [] => true
+  | x :: r, y :: s => (eqc ctx et (t_nullable et) x y && go r s)%bool
+  | _, _ => false
+  end.
+Definition eq_fields (ctx : schemas) := fix go (fs : list field) (fa fb : list (string * gval)) {struct fa} : bool :=
+  match fs, fa, fb with
+  | [], [], [] => true
+  | f :: fr, (_, x) :: ar, (_, y) :: br =>
+      (eqc ctx (f_type f) (t_nullable (f_type f)) x y && go fr ar br)%bool
+  | _, _, _ => false
+  end.
+Definition eq_map (ctx : schemas) (vt : ty) (lb : list (string * gval)) (la : list (string * gval)) : bool :=
+  (Nat.eqb (List.length la) (List.length lb) &&
+   forallb (fun kv => eqc ctx vt (t_nullable vt) (snd kv)
+                          (match gmap_find lb (fst kv) with Some y => y | None => zero ctx vt end)) la)%bool.
+Definition eq_nl (ctx : schemas) (t : ty) (a b : gval) : bool :=
+  match a, b with
+  | GNil, GNil => true
+  | GPtr x, GPtr y => eqc ctx t false x y
+  | _, _ => false
+  end.
+Definition eq_struct (ctx : schemas) (fs : list field) (a b : gval) : bool :=
+  match a, b with
+  | GStruct fa, GStruct fb => eq_fields ctx fs fa fb
+  | _, _ => false
+  end.
+Definition needs (t : ty) : bool := (is_ref t && t_nullable t)%bool.
+
+Lemma eqc_unfold ctx t nl a b : eqc ctx t nl a b =
+  if is_any t then deep_equal a b else
+  match payload_type ctx t with
+  | PUnm _ => false
+  | PTy pt =>
+      match pt with
+      | TArray _ et =>
+          if (needs t && xorb (is_nil a) (is_nil b))%bool then false else
+          match a with
+          | GSlice la => eq_arr ctx et la (elems b)
+          | GPtr (GSlice la) => eq_arr ctx et la (elems b)
+          | _ => match elems b with [] => true | _ => false end
+          end
+      | TMap _ _ vt =>
+          if (needs t && xorb (is_nil a) (is_nil b))%bool then false else
+          match a with
+          | GMap la => eq_map ctx vt (entries b) la
+          | GPtr (GMap la) => eq_map ctx vt (entries b) la
+          | _ => match entries b with [] => true | _ => false end
+          end
+      | _ =>
+          if nl then eq_nl ctx t a b
+          else match pt with
+               | TStruct _ _ fs => eq_struct ctx fs a b
+               | _ => leaf_eq a b
+               end
+      end
+  end.
+Proof. destruct a; try reflexivity. Qed.
+
+Lemma eq_arr_all2 ctx et la lb : eq_arr ctx et la lb = all2 (eqc ctx et (t_nullable et)) la lb.
+Proof. revert lb; induction la as [|x r IH]; intros [|y s]; simpl; auto. rewrite <- IH; reflexivity. Qed.
+
+Lemma eqc_any ctx t nl a b : is_any t = true -> eqc ctx t nl a b = deep_equal a b.
+Proof. intros H. rewrite eqc_unfold, H. reflexivity. Qed.
+Lemma eqc_arr ctx t nl a b a0 et : is_any t = false -> payload_type ctx t = PTy (TArray a0 et) ->
+  eqc ctx t nl a b =
+  if (needs t && xorb (is_nil a) (is_nil b))%bool then false else
+  match a with
+  | GSlice la => all2 (eqc ctx et (t_nullable et)) la (elems b)
+  | GPtr (GSlice la) => all2 (eqc ctx et (t_nullable et)) la (elems b)
+  | _ => match elems b with [] => true | _ => false end
+  end.
+Proof.
+  intros H1 H2. rewrite eqc_unfold, H1, H2.
+  destruct (needs t && xorb (is_nil a) (is_nil b))%bool; auto.
+  destruct a; auto; try apply eq_arr_all2. destruct a; auto. apply eq_arr_all2.
+Qed.
+Lemma eqc_map ctx t nl a b a0 it vt : is_any t = false -> payload_type ctx t = PTy (TMap a0 it vt) ->
+  eqc ctx t nl a b =
+  if (needs t && xorb (is_nil a) (is_nil b))%bool then false else
+  match a with
+  | GMap la => eq_map ctx vt (entries b) la
+  | GPtr (GMap la) => eq_map ctx vt (entries b) la
+  | _ => match entries b with [] => true | _ => false end
+  end.
+Proof. intros H1 H2. rewrite eqc_unfold, H1, H2. reflexivity. Qed.
+Lemma eqc_gen ctx t nl a b pt : is_any t = false -> payload_type ctx t = PTy pt ->
+  is_array pt = false -> is_map pt = false ->
+  eqc ctx t nl a b =
+  if nl then eq_nl ctx t a b
+  else match pt with
+       | TStruct _ _ fs => eq_struct ctx fs a b
+       | _ => leaf_eq a b
+       end.
+Proof. intros H1 H2 H3 H4. rewrite eqc_unfold, H1, H2. destruct pt; try discriminate; reflexivity. Qed.
+
+Lemma needs_non_null t : needs (non_null t) = false.
+Proof. unfold needs. rewrite non_null_nullable. apply andb_false_r. Qed.
+
+(* the nullable case hands over to the same comparison on the pointees *)
+Lemma eqc_ptr ctx t x y :
+  is_ptr t = true -> no_nil_ptr x = true -> no_nil_ptr y = true ->
+  eqc ctx t true (GPtr x) (GPtr y) = eqc ctx (non_null t) false x y.
+Proof.
+  intros Hp Hx Hy.
+  pose proof (is_ptr_not_any _ Hp) as Ha.
+  assert (Ha' : is_any (non_null t) = false) by (rewrite is_any_non_null; exact Ha).
+  destruct (is_reflike t) eqn:R.
+  - pose proof (payload_non_null_ref ctx t R) as E.
+    destruct (payload_type ctx t) as [pt|w] eqn:P.
+    + destruct (is_array pt) eqn:A; [|destruct (is_map pt) eqn:M].
+      * destruct pt; try discriminate.
+        rewrite (eqc_arr ctx t true _ _ _ _ Ha P), (eqc_arr ctx (non_null t) false _ _ _ _ Ha' E).
+        rewrite needs_non_null. simpl. rewrite andb_false_r.
+        destruct x; try discriminate; destruct y; try discriminate; reflexivity.
+      * destruct pt; try discriminate.
+        rewrite (eqc_map ctx t true _ _ _ _ _ Ha P), (eqc_map ctx (non_null t) false _ _ _ _ _ Ha' E).
+        rewrite needs_non_null. simpl. rewrite andb_false_r.
+        destruct x; try discriminate; destruct y; try discriminate; reflexivity.
+      * rewrite (eqc_gen ctx t true _ _ _ Ha P A M). simpl.
+        rewrite (eqc_gen ctx t false _ _ _ Ha P A M), (eqc_gen ctx (non_null t) false _ _ _ Ha' E A M).
+        reflexivity.
+    + rewrite (eqc_unfold ctx t), Ha, P. rewrite (eqc_unfold ctx (non_null t)), Ha', E. reflexivity.
+  - pose proof (payload_self ctx t R) as P.
+    assert (R' : is_reflike (non_null t) = false) by (destruct t; auto).
+    pose proof (payload_self ctx (non_null t) R') as P'.
+    destruct t; try discriminate; try (unfold is_ptr in Hp; rewrite andb_false_r in Hp; discriminate).
+    + rewrite (eqc_gen ctx _ true _ _ _ Ha P eq_refl eq_refl). simpl.
+      rewrite (eqc_gen ctx _ false _ _ _ Ha P eq_refl eq_refl), (eqc_gen ctx _ false _ _ _ Ha' P' eq_refl eq_refl).
+      reflexivity.
+    + rewrite (eqc_gen ctx _ true _ _ _ Ha P eq_refl eq_refl). simpl.
+      rewrite (eqc_gen ctx _ false _ _ _ Ha P eq_refl eq_refl), (eqc_gen ctx _ false _ _ _ Ha' P' eq_refl eq_refl).
+      reflexivity.
+Qed.
+
+(* ====================================================================== *)
+(* Part 6: the generated Equals refines vsim on aligned, well-typed values *)
+(* ====================================================================== *)
+Lemma all2_ext_gen {A} (P : A -> bool) (R f g : A -> A -> bool) la lb :
+  Forall (fun x => forall y, P x = true -> P y = true -> R x y = true -> f x y = g x y) la ->
+  forallb P la = true -> forallb P lb = true -> all2p R la lb = true -> all2 f la lb = all2 g la lb.
+Proof.
+  intros H; revert lb; induction H as [|x r Hx Hr IH]; intros [|y s] Pa Pb HR; simpl in *; auto.
+  apply andb_true_iff in Pa, Pb, HR. destruct Pa, Pb, HR. rewrite Hx, IH; auto.
+Qed.
+Lemma all2_all2p {A B} (f : A -> B -> bool) la lb : all2 f la lb = true -> all2p f la lb = true.
+Proof.
+  revert lb; induction la as [|x r IH]; intros [|y s] H; simpl in *; auto; try discriminate.
+  apply andb_true_iff in H. destruct H as [H1 H2]. rewrite H1. simpl. auto.
+Qed.
+Lemma keq_drop {V} (h f : V -> V -> bool) (la lb : list (string * V)) :
+  all2 (keq h) la lb = true -> all2 (keq f) la lb = all2 (snd2 f) la lb.
+Proof.
+  revert lb; induction la as [|p r IH]; intros [|q s] H; simpl in *; auto.
+  apply andb_true_iff in H. destruct H as [H1 H2]. unfold keq in H1. apply andb_true_iff in H1. destruct H1 as [H1 _].
+  unfold keq at 1. rewrite H1. simpl. unfold snd2 at 1. f_equal. auto.
+Qed.
+
+Lemma str_in_In (k : string) (y : gval) r : In (k, y) r -> str_in k (map fst r) = true.
+Proof.
+  induction r as [|[k' v] r IH]; simpl; intros H; [contradiction|].
+  destruct H as [H|H].
+  - inversion H; subst. rewrite String.eqb_refl. reflexivity.
+  - rewrite (IH H). apply orb_true_r.
+Qed.
+Lemma nodup_find l k y : str_nodup (map fst l) = true -> In (k, y) l -> gmap_find l k = Some y.
+Proof.
+  induction l as [|[k' v] r IH]; simpl; intros N H; [contradiction|].
+  apply andb_true_iff in N. destruct N as [N1 N2]. destruct H as [H|H].
+  - inversion H; subst. rewrite seqb_refl. reflexivity.
+  - destruct (seqb k' k) eqn:E.
+    + apply seqb_eq in E. subst. rewrite (str_in_In _ _ _ H) in N1. discriminate.
+    + auto.
+Qed.
+Lemma forallb_lookup {V} (h : V -> gval -> bool) (F : V -> gval -> bool) z (la : list (string * V)) lb L :
+  all2 (keq h) la lb = true -> (forall k y, In (k, y) lb -> gmap_find L k = Some y) ->
+  forallb (fun kv => F (snd kv) (match gmap_find L (fst kv) with Some y => y | None => z end)) la
+  = all2 (snd2 F) la lb.
+Proof.
+  revert lb; induction la as [|p r IH]; intros [|[k' y] s] H HL; simpl in *; auto; try discriminate.
+  apply andb_true_iff in H. destruct H as [H1 H2]. unfold keq in H1. apply andb_true_iff in H1. destruct H1 as [H1 _].
+  apply seqb_eq in H1. simpl in H1. rewrite H1. rewrite (HL k' y (or_introl eq_refl)).
+  unfold snd2 at 1. simpl. f_equal. apply IH; auto.
+Qed.
+
+Lemma needs_false t : is_ptr t = false -> needs t = false.
+Proof.
+  intros H. unfold needs. destruct (is_ref t) eqn:R; auto. rewrite <- (is_ref_is_ptr _ R). rewrite H. reflexivity.
+Qed.
+Lemma needs_true ctx t pt : is_ptr t = true -> payload_type ctx t = PTy pt ->
+  (is_array pt || is_map pt)%bool = true -> needs t = true.
+Proof.
+  intros Hp P A. destruct t; try (unfold is_ptr in Hp; rewrite andb_false_r in Hp; discriminate).
+  - simpl in P. inversion P; subst. discriminate.
+  - unfold needs. simpl. apply is_ptr_nullable in Hp. exact Hp.
+  - simpl in P. inversion P; subst. discriminate.
+Qed.
+
+Section Refine.
+  Variable ctx : schemas.
+  Hypothesis Hc : ctx_supported ctx = true.
+
+  Definition refines (a : gval) : Prop :=
+    forall t b, ty_supported ctx t = true -> wt ctx t a = true -> wt ctx t b = true ->
+                keys_aligned a b = true -> eqc ctx t (t_nullable t) a b = vsim a b.
+
+  Lemma leaf_case a : is_leaf a = true -> refines a.
+  Proof.
+    intros L t b Hs Ha Hb _.
+    destruct (wt_leaf_inv _ _ _ L Ha) as [Hany [Hptr [pt [Hpt Hl]]]].
+    destruct (leaf_ty_shape _ _ Hl) as [S1 [S2 S3]].
+    rewrite (nullable_is_ptr _ _ _ Hs Hany Hpt S1 S2), Hptr.
+    rewrite (eqc_gen _ _ _ _ _ _ Hany Hpt S1 S2).
+    pose proof (cf_leaf _ _ _ _ Hany Hptr Hpt S1 S2 S3 Hb) as Lb.
+    destruct pt; try discriminate; destruct a; try discriminate; destruct b; try discriminate; reflexivity.
+  Qed.
+
+  Lemma fields_case : forall fa fs fb,
+    Forall (fun kv => refines (snd kv)) fa ->
+    forallb (fun f => ty_supported ctx (f_type f)) fs = true ->
+    wt_fields ctx fs fa = true -> wt_fields ctx fs fb = true ->
+    all2p (snd2 keys_aligned) fa fb = true ->
+    eq_fields ctx fs fa fb = all2 (keq vsim) fa fb.
+  Proof.
+    intros fa fs fb H; revert fs fb; induction H as [|[n x] ar Hx Hr IH]; intros fs fb Hs Wa Wb K.
+    - destruct fs; simpl in Wa; try discriminate. destruct fb as [|[n' y] br]; simpl in Wb; try discriminate. reflexivity.
+    - destruct fs as [|f fr]; simpl in Wa; try discriminate.
+      destruct fb as [|[n' y] br]; simpl in Wb; try discriminate.
+      simpl in Hs. apply andb_true_iff in Hs. destruct Hs as [Hs1 Hs2].
+      apply andb_true_iff in Wa. destruct Wa as [Wa Wa3]. apply andb_true_iff in Wa. destruct Wa as [Wa1 Wa2].
+      apply andb_true_iff in Wb. destruct Wb as [Wb Wb3]. apply andb_true_iff in Wb. destruct Wb as [Wb1 Wb2].
+      simpl in K. apply andb_true_iff in K. destruct K as [K1 K2]. unfold snd2 in K1. simpl in K1, Hx.
+      simpl. unfold keq at 1. simpl.
+      apply seqb_eq in Wa1, Wb1. subst. rewrite seqb_refl. simpl.
+      rewrite (Hx _ _ Hs1 Wa2 Wb2 K1). f_equal. apply IH; auto.
+  Qed.
+
+  Lemma eqc_vsim : forall a, refines a.
+  Proof.
+    induction a using gval_ind'.
+    2-6: apply leaf_case; reflexivity.
+    - (* GNil *)
+      intros t b Hs Ha Hb Hk.
+      destruct (wt_nil_inv _ _ Ha) as [Hany | [Hany [pt [Hpt Hcase]]]].
+      + rewrite eqc_any by auto. destruct (cf_any _ _ _ Hany Hb) as [-> | [j ->]]; reflexivity.
+      + destruct Hcase as [Hptr | [Hptr Ham]].
+        * pose proof (is_ptr_nullable _ Hptr) as Hn.
+          destruct (cf_ptr _ _ _ Hany Hptr Hb) as [-> | [y [-> [Hy Hwy]]]].
+          -- rewrite eqc_unfold, Hany, Hpt, Hn. destruct pt; simpl; rewrite ?andb_false_r; reflexivity.
+          -- destruct (is_array pt || is_map pt)%bool eqn:A.
+             ++ pose proof (needs_true _ _ _ Hptr Hpt A) as Hnd.
+                rewrite eqc_unfold, Hany, Hpt, Hnd. destruct pt; try discriminate; reflexivity.
+             ++ apply orb_false_iff in A. destruct A as [A1 A2].
+                rewrite (eqc_gen _ _ _ _ _ _ Hany Hpt A1 A2), Hn. reflexivity.
+        * pose proof (needs_false _ Hptr) as Hnd. destruct pt; try discriminate.
+          -- rewrite (eqc_arr _ _ _ _ _ _ _ Hany Hpt), Hnd.
+             destruct (cf_arr _ _ _ _ _ Hany Hptr Hpt Hb) as [-> | [l [-> _]]]; [reflexivity|].
+             destruct l; reflexivity.
+          -- rewrite (eqc_map _ _ _ _ _ _ _ _ Hany Hpt), Hnd.
+             destruct (cf_map _ _ _ _ _ _ Hany Hptr Hpt Hb) as [-> | [l [-> _]]]; [reflexivity|].
+             destruct l; reflexivity.
+    - (* GPtr *)
+      intros t b Hs Ha Hb Hk.
+      destruct (wt_ptr_inv _ _ _ Ha) as [Hany [Hptr [[pt Hpt] [Hx Hwx]]]].
+      pose proof (is_ptr_nullable _ Hptr) as Hn.
+      destruct (cf_ptr _ _ _ Hany Hptr Hb) as [-> | [y [-> [Hy Hwy]]]].
+      + destruct (is_array pt || is_map pt)%bool eqn:A.
+        * pose proof (needs_true _ _ _ Hptr Hpt A) as Hnd.
+          rewrite eqc_unfold, Hany, Hpt, Hnd. destruct pt; try discriminate; reflexivity.
+        * apply orb_false_iff in A. destruct A as [A1 A2].
+          rewrite (eqc_gen _ _ _ _ _ _ Hany Hpt A1 A2), Hn. reflexivity.
+      + rewrite Hn, (eqc_ptr _ _ _ _ Hptr Hx Hy).
+        pose proof (IHa (non_null t) y (supported_non_null _ _ Hs) Hwx Hwy Hk) as E.
+        rewrite non_null_nullable in E. exact E.
+    - (* GSlice *)
+      intros t b Hs Ha Hb Hk.
+      destruct (wt_slice_inv _ _ _ Ha) as [Hany [Hptr [a0 [et [Hpt Hwl]]]]].
+      pose proof (payload_supported _ _ _ Hc Hs Hpt) as Hse. simpl in Hse.
+      rewrite (eqc_arr _ _ _ _ _ _ _ Hany Hpt), (needs_false _ Hptr). cbn [andb].
+      destruct (cf_arr _ _ _ _ _ Hany Hptr Hpt Hb) as [-> | [l' [-> Hwl']]].
+      + destruct l; reflexivity.
+      + rewrite vsim_slice. rewrite ka_slice_eq in Hk. simpl.
+        apply (all2_ext_gen (wt ctx et) keys_aligned); auto.
+        eapply Forall_impl; [|exact H]. intros x Hx y W1 W2 K. apply Hx; auto.
+    - (* GMap *)
+      intros t b Hs Ha Hb Hk.
+      destruct (wt_map_inv _ _ _ Ha) as [Hany [Hptr [a0 [it [vt [Hpt [Hnd Hwl]]]]]]].
+      pose proof (payload_supported _ _ _ Hc Hs Hpt) as Hse. simpl in Hse.
+      apply andb_true_iff in Hse. destruct Hse as [_ Hse].
+      rewrite (eqc_map _ _ _ _ _ _ _ _ Hany Hpt), (needs_false _ Hptr). cbn [andb].
+      destruct (cf_map _ _ _ _ _ _ Hany Hptr Hpt Hb) as [-> | [l' [-> [Hnd' Hwl']]]].
+      + destruct l; reflexivity.
+      + rewrite vsim_map. rewrite ka_map_eq in Hk. simpl. unfold eq_map.
+        rewrite (all2_length _ _ _ Hk), Nat.eqb_refl. simpl.
+        rewrite (forallb_lookup keys_aligned (eqc ctx vt (t_nullable vt)) _ _ _ _ Hk
+                   (fun k y HI => nodup_find _ _ _ Hnd' HI)).
+        rewrite (keq_drop _ vsim _ _ Hk).
+        apply (all2_ext_gen (fun kv => wt ctx vt (snd kv)) (keq keys_aligned)); auto.
+        * eapply Forall_impl; [|exact H]. intros x Hx y W1 W2 K. unfold snd2. apply Hx; auto.
+          unfold keq in K. apply andb_true_iff in K. tauto.
+        * apply all2_all2p. exact Hk.
+    - (* GStruct *)
+      intros t b Hs Ha Hb Hk.
+      destruct (wt_struct_inv _ _ _ Ha) as [Hany [Hptr [a0 [dh [fs [Hpt [Hu Hwl]]]]]]].
+      pose proof (payload_supported _ _ _ Hc Hs Hpt) as Hse. simpl in Hse.
+      rewrite (nullable_is_ptr _ _ _ Hs Hany Hpt eq_refl eq_refl), Hptr.
+      rewrite (eqc_gen _ _ _ _ _ _ Hany Hpt eq_refl eq_refl).
+      destruct (cf_struct _ _ _ _ _ _ Hany Hptr Hpt Hb) as [l' [-> [Hu' Hwl']]].
+      rewrite vsim_struct. rewrite ka_struct_eq in Hk. simpl.
+      apply fields_case; auto.
+    - (* GAny *)
+      intros t b Hs Ha Hb Hk.
+      pose proof (wt_any_inv _ _ _ Ha) as Hany. rewrite eqc_any by auto.
+      destruct (cf_any _ _ _ Hany Hb) as [-> | [j' ->]]; reflexivity.
+  Qed.
+End Refine.
+
+(* ====================================================================== *)
+(* Part 7: vsim is transitive on values of one type                       *)
+(* ====================================================================== *)
+Lemma all2_trans_gen {A} (P : A -> bool) (f : A -> A -> bool) la lb lc :
+  Forall (fun x => forall y z, P x = true -> P y = true -> P z = true ->
+                               f x y = true -> f y z = true -> f x z = true) la ->
+  forallb P la = true -> forallb P lb = true -> forallb P lc = true ->
+  all2 f la lb = true -> all2 f lb lc = true -> all2 f la lc = true.
+Proof.
+  intros H; revert lb lc; induction H as [|x r Hx Hr IH]; intros [|y s] [|z u] Pa Pb Pc E1 E2;
+    simpl in *; auto; try discriminate.
+  apply andb_true_iff in Pa, Pb, Pc, E1, E2. destruct Pa, Pb, Pc, E1, E2.
+  rewrite (Hx y z); auto. simpl. apply (IH s u); auto.
+Qed.
+
+Lemma leaf_eq_eq a b : is_leaf a = true -> leaf_eq a b = true -> a = b.
+Proof.
+  destruct a; try discriminate; destruct b; try discriminate; simpl; intros _ E.
+  - apply Bool.eqb_prop in E. congruence.
+  - apply Z.eqb_eq in E. congruence.
+  - apply andb_true_iff in E. destruct E as [E1 E2]. apply Z.eqb_eq in E1, E2. congruence.
+  - apply String.eqb_eq in E. congruence.
+  - apply andb_true_iff in E. destruct E as [E1 E2]. apply String.eqb_eq in E1. apply Bool.eqb_prop in E2. congruence.
+Qed.
+Lemma vsim_leaf a b : is_leaf a = true -> vsim a b = leaf_eq a b.
+Proof. destruct a; try discriminate; destruct b; reflexivity. Qed.
+
+Section Trans.
+  Variable ctx : schemas.
+  Hypothesis Hc : ctx_supported ctx = true.
+
+  Definition transitive_at (a : gval) : Prop :=
+    forall t b c, ty_supported ctx t = true -> wt ctx t a = true -> wt ctx t b = true -> wt ctx t c = true ->
+                  vsim a b = true -> vsim b c = true -> vsim a c = true.
+
+  Lemma fields_trans : forall fa fs fb fc,
+    Forall (fun kv => transitive_at (snd kv)) fa ->
+    forallb (fun f => ty_supported ctx (f_type f)) fs = true ->
+    wt_fields ctx fs fa = true -> wt_fields ctx fs fb = true -> wt_fields ctx fs fc = true ->
+    all2 (keq vsim) fa fb = true -> all2 (keq vsim) fb fc = true -> all2 (keq vsim) fa fc = true.
+  Proof.
+    intros fa fs fb fc H; revert fs fb fc; induction H as [|[n x] ar Hx Hr IH]; intros fs fb fc Hs Wa Wb Wc E1 E2.
+    - destruct fb; simpl in E1; try discriminate. exact E2.
+    - destruct fs as [|f fr]; simpl in Wa; try discriminate.
+      destruct fb as [|[n' y] br]; simpl in Wb; try discriminate.
+      destruct fc as [|[n'' z] cr]; simpl in Wc; try discriminate.
+      simpl in Hs. apply andb_true_iff in Hs. destruct Hs as [Hs1 Hs2].
+      apply andb_true_iff in Wa. destruct Wa as [Wa Wa3]. apply andb_true_iff in Wa. destruct Wa as [Wa1 Wa2].
+      apply andb_true_iff in Wb. destruct Wb as [Wb Wb3]. apply andb_true_iff in Wb. destruct Wb as [Wb1 Wb2].
+      apply andb_true_iff in Wc. destruct Wc as [Wc Wc3]. apply andb_true_iff in Wc. destruct Wc as [Wc1 Wc2].
+      simpl in E1, E2. apply andb_true_iff in E1, E2. destruct E1 as [E1 E1r], E2 as [E2 E2r].
+      unfold keq in E1, E2. simpl in E1, E2. apply andb_true_iff in E1, E2. destruct E1 as [_ E1], E2 as [_ E2].
+      apply seqb_eq in Wa1, Wc1. subst. simpl. unfold keq at 1. simpl. rewrite seqb_refl. simpl in Hx.
+      rewrite (Hx _ _ _ Hs1 Wa2 Wb2 Wc2 E1 E2). simpl. apply (IH fr br cr); auto.
+  Qed.
+
+  Lemma vsim_trans : forall a, transitive_at a.
+  Proof.
+    induction a using gval_ind'.
+    2-6: (intros t vb vc Hs Ha Hb Hc' E1 E2; rewrite vsim_leaf in E1 by reflexivity;
+          apply leaf_eq_eq in E1; [subst vb; exact E2|reflexivity]).
+    - (* GNil *)
+      intros t b c Hs Ha Hb Hc' E1 E2.
+      destruct (wt_nil_inv _ _ Ha) as [Hany | [Hany [pt [Hpt Hcase]]]].
+      + destruct (cf_any _ _ _ Hany Hb) as [-> | [j ->]]; [exact E2|discriminate].
+      + destruct Hcase as [Hptr | [Hptr Ham]].
+        * destruct (cf_ptr _ _ _ Hany Hptr Hb) as [-> | [y [-> _]]]; [exact E2|discriminate].
+        * destruct pt; try discriminate.
+          -- destruct (cf_arr _ _ _ _ _ Hany Hptr Hpt Hb) as [-> | [l [-> _]]]; [exact E2|].
+             destruct l; try discriminate.
+             destruct (cf_arr _ _ _ _ _ Hany Hptr Hpt Hc') as [-> | [l' [-> _]]]; [reflexivity|].
+             destruct l'; try discriminate. reflexivity.
+          -- destruct (cf_map _ _ _ _ _ _ Hany Hptr Hpt Hb) as [-> | [l [-> _]]]; [exact E2|].
+             destruct l; try discriminate.
+             destruct (cf_map _ _ _ _ _ _ Hany Hptr Hpt Hc') as [-> | [l' [-> _]]]; [reflexivity|].
+             destruct l'; try discriminate. reflexivity.
+    - (* GPtr *)
+      intros t b c Hs Ha Hb Hc' E1 E2.
+      destruct (wt_ptr_inv _ _ _ Ha) as [Hany [Hptr [[pt Hpt] [Hx Hwx]]]].
+      destruct (cf_ptr _ _ _ Hany Hptr Hb) as [-> | [y [-> [Hy Hwy]]]]; [discriminate|].
+      destruct (cf_ptr _ _ _ Hany Hptr Hc') as [-> | [z [-> [Hz Hwz]]]]; [discriminate|].
+      simpl in E1, E2 |- *. apply (IHa (non_null t) y z); auto using supported_non_null.
+    - (* GSlice *)
+      intros t b c Hs Ha Hb Hc' E1 E2.
+      destruct (wt_slice_inv _ _ _ Ha) as [Hany [Hptr [a0 [et [Hpt Hwl]]]]].
+      pose proof (payload_supported _ _ _ Hc Hs Hpt) as Hse. simpl in Hse.
+      destruct (cf_arr _ _ _ _ _ Hany Hptr Hpt Hb) as [-> | [l' [-> Hwl']]];
+        destruct (cf_arr _ _ _ _ _ Hany Hptr Hpt Hc') as [-> | [l'' [-> Hwl'']]].
+      + exact E1.
+      + destruct l; try discriminate. destruct l''; try discriminate. reflexivity.
+      + destruct l'; try discriminate. rewrite vsim_slice in E1. destruct l; try discriminate. reflexivity.
+      + rewrite vsim_slice in *. apply (all2_trans_gen (wt ctx et) vsim l l' l''); auto.
+        eapply Forall_impl; [|exact H]. intros x Hx y z W1 W2 W3 F1 F2. apply (Hx et y z); auto.
+    - (* GMap *)
+      intros t b c Hs Ha Hb Hc' E1 E2.
+      destruct (wt_map_inv _ _ _ Ha) as [Hany [Hptr [a0 [it [vt [Hpt [Hnd Hwl]]]]]]].
+      pose proof (payload_supported _ _ _ Hc Hs Hpt) as Hse. simpl in Hse.
+      apply andb_true_iff in Hse. destruct Hse as [_ Hse].
+      destruct (cf_map _ _ _ _ _ _ Hany Hptr Hpt Hb) as [-> | [l' [-> [_ Hwl']]]];
+        destruct (cf_map _ _ _ _ _ _ Hany Hptr Hpt Hc') as [-> | [l'' [-> [_ Hwl'']]]].
+      + exact E1.
+      + destruct l; try discriminate. destruct l''; try discriminate. reflexivity.
+      + destruct l'; try discriminate. rewrite vsim_map in E1. destruct l; try discriminate. reflexivity.
+      + rewrite vsim_map in *. apply (all2_trans_gen (fun kv => wt ctx vt (snd kv)) (keq vsim) l l' l''); auto.
+        eapply Forall_impl; [|exact H]. intros x Hx y z W1 W2 W3 F1 F2. unfold keq in *.
+        apply andb_true_iff in F1, F2. destruct F1 as [K1 F1], F2 as [K2 F2].
+        apply seqb_eq in K1, K2. rewrite K1, K2, seqb_refl. simpl. apply (Hx vt (snd y) (snd z)); auto.
+    - (* GStruct *)
+      intros t b c Hs Ha Hb Hc' E1 E2.
+      destruct (wt_struct_inv _ _ _ Ha) as [Hany [Hptr [a0 [dh [fs [Hpt [Hu Hwl]]]]]]].
+      pose proof (payload_supported _ _ _ Hc Hs Hpt) as Hse. simpl in Hse.
+      destruct (cf_struct _ _ _ _ _ _ Hany Hptr Hpt Hb) as [l' [-> [Hu' Hwl']]].
+      destruct (cf_struct _ _ _ _ _ _ Hany Hptr Hpt Hc') as [l'' [-> [Hu'' Hwl'']]].
+      rewrite vsim_struct in *. apply (fields_trans l fs l' l''); auto.
+    - (* GAny *)
+      intros t b c Hs Ha Hb Hc' E1 E2.
+      pose proof (wt_any_inv _ _ _ Ha) as Hany.
+      destruct (cf_any _ _ _ Hany Hb) as [-> | [j' ->]]; [discriminate|].
+      simpl in E1. apply json_eqb_eq in E1. subst. exact E2.
+  Qed.
+End Trans.
+
+(* ====================================================================== *)
+(* Part 8: reflexivity, symmetry, transitivity of the generated Equals    *)
+(* ====================================================================== *)
+Lemma equals_refl : forall ctx t a,
+  (ctx_supported ctx = true /\ ty_supported ctx t = true /\ wt ctx t a = true) ->
+  eqc ctx t (t_nullable t) a a = true.
+Proof.
+  intros ctx t a [Hc [Hs Ha]]. rewrite (eqc_vsim ctx Hc a t a Hs Ha Ha (ka_refl a)). apply vsim_refl.
+Qed.
+
+Lemma equals_sym_partial : forall ctx t a b,
+  (ctx_supported ctx = true /\ ty_supported ctx t = true /\ wt ctx t a = true) ->
+  (ctx_supported ctx = true /\ ty_supported ctx t = true /\ wt ctx t b = true) ->
+  keys_aligned a b = true ->
+  eqc ctx t (t_nullable t) a b = eqc ctx t (t_nullable t) b a.
+Proof.
+  intros ctx t a b [Hc [Hs Ha]] [_ [_ Hb]] K.
+  rewrite (eqc_vsim ctx Hc a t b Hs Ha Hb K).
+  rewrite (eqc_vsim ctx Hc b t a Hs Hb Ha) by (rewrite ka_sym; exact K).
+  apply vsim_sym.
+Qed.
+
+Lemma equals_trans_partial : forall ctx t a b c,
+  (ctx_supported ctx = true /\ ty_supported ctx t = true /\ wt ctx t a = true) ->
+  (ctx_supported ctx = true /\ ty_supported ctx t = true /\ wt ctx t b = true) ->
+  (ctx_supported ctx = true /\ ty_supported ctx t = true /\ wt ctx t c = true) ->
+  keys_aligned a b = true -> keys_aligned b c = true ->
+  eqc ctx t (t_nullable t) a b = true -> eqc ctx t (t_nullable t) b c = true ->
+  eqc ctx t (t_nullable t) a c = true.
+Proof.
+  intros ctx t a b c [Hc [Hs Ha]] [_ [_ Hb]] [_ [_ Hc']] K1 K2 E1 E2.
+  rewrite (eqc_vsim ctx Hc a t b Hs Ha Hb K1) in E1.
+  rewrite (eqc_vsim ctx Hc b t c Hs Hb Hc' K2) in E2.
+  pose proof (vsim_trans ctx Hc a t b c Hs Ha Hb Hc' E1 E2) as E3.
+  rewrite (eqc_vsim ctx Hc a t c Hs Ha Hc' (vsim_aligned _ _ E3)). exact E3.
+Qed.
+
+(* ====================================================================== *)
+(* Part 9: vsim-related values have the same encoding up to empties       *)
+(* ====================================================================== *)
+Definition enc_fields (ctx : schemas) :=
+  fix go (fs : list field) (fvs : list (string * gval)) {struct fvs} : list (string * json) :=
+    match fs, fvs with
+    | f :: fr, (_, fv) :: vr =>
+        if (negb (f_required f) && is_empty_value fv)%bool then go fr vr
+        else (f_name f, encode ctx (f_type f) fv) :: go fr vr
+    | _, _ => []
+    end.
+Definition enc_union (ctx : schemas) :=
+  fix go (fs : list field) (fvs : list (string * gval)) {struct fvs} : json :=
+    match fs, fvs with
+    | f :: fr, (_, fv) :: vr =>
+        match fv with GNil => go fr vr | _ => encode ctx (f_type f) fv end
+    | _, _ => JNull
+    end.
+
+Lemma encode_struct ctx t fvs a dh fs : payload_or_self ctx t = TStruct a dh fs ->
+  encode ctx t (GStruct fvs) =
+  match union_scalars (TStruct a dh fs), union_refs (TStruct a dh fs) with
+  | None, None => JObj (enc_fields ctx fs fvs)
+  | _, _ => enc_union ctx fs fvs
+  end.
+Proof. intros H. simpl. rewrite H. reflexivity. Qed.
+Lemma enc_union_cons ctx f fr n x ar :
+  enc_union ctx (f :: fr) ((n, x) :: ar) = if is_nil x then enc_union ctx fr ar else encode ctx (f_type f) x.
+Proof. destruct x; reflexivity. Qed.
+
+Definition N (j : json) : json := null_if_empty (erase_empty j).
+Definition keepf (k : string) (v : json) (acc : list (string * json)) : list (string * json) :=
+  if is_emptyish v then acc else (k, v) :: acc.
+Definition K (kv : string * json) (acc : list (string * json)) := keepf (fst kv) (N (snd kv)) acc.
+
+Lemma keep_nie k v acc : (if is_emptyish v then acc else (k, v) :: acc) = keepf k (null_if_empty v) acc.
+Proof.
+  unfold null_if_empty, keepf. destruct (is_emptyish v) eqn:E; simpl; [reflexivity|rewrite E; reflexivity].
+Qed.
+Lemma erase_obj ms : erase_empty (JObj ms) = JObj (fold_right K [] ms).
+Proof.
+  simpl. f_equal. induction ms as [|kv r IH]; simpl; auto. rewrite IH. unfold K at 1, N. apply keep_nie.
+Qed.
+Lemma erase_arr l : erase_empty (JArr l) = JArr (map N l).
+Proof. reflexivity. Qed.
+
+Lemma nilish_enc ctx t x : vsim GNil x = true -> N (encode ctx t x) = JNull.
+Proof.
+  destruct x as [| | | | | | |l|l| |]; try discriminate; intros E.
+  - reflexivity.
+  - destruct l; try discriminate. simpl. destruct (payload_or_self ctx t); reflexivity.
+  - destruct l; try discriminate. simpl. destruct (payload_or_self ctx t); reflexivity.
+Qed.
+Lemma nilish_enc' ctx t x : vsim x GNil = true -> N (encode ctx t x) = JNull.
+Proof. rewrite vsim_sym. apply nilish_enc. Qed.
+
+Lemma map_sim {A B} (P : A -> bool) (f : A -> A -> bool) (g : A -> B) la lb :
+  Forall (fun x => forall y, P x = true -> P y = true -> f x y = true -> g x = g y) la ->
+  forallb P la = true -> forallb P lb = true -> all2 f la lb = true -> map g la = map g lb.
+Proof.
+  intros H; revert lb; induction H as [|x r Hx Hr IH]; intros [|y s] Pa Pb E; simpl in *; auto; try discriminate.
+  apply andb_true_iff in Pa, Pb, E. destruct Pa, Pb, E. f_equal; auto.
+Qed.
+Lemma obj_sim (P : string * gval -> bool) (g : gval -> json) la lb :
+  Forall (fun x => forall y, P x = true -> P y = true -> vsim (snd x) (snd y) = true -> N (g (snd x)) = N (g (snd y))) la ->
+  forallb P la = true -> forallb P lb = true -> all2 (keq vsim) la lb = true ->
+  fold_right K [] (map (fun kv => (fst kv, g (snd kv))) la) = fold_right K [] (map (fun kv => (fst kv, g (snd kv))) lb).
+Proof.
+  intros H; revert lb; induction H as [|x r Hx Hr IH]; intros [|y s] Pa Pb E; simpl in *; auto; try discriminate.
+  apply andb_true_iff in Pa, Pb, E. destruct Pa, Pb, E as [E1 E2]. unfold keq in E1. apply andb_true_iff in E1.
+  destruct E1 as [E0 E1]. apply seqb_eq in E0. unfold K at 1 3. simpl. rewrite E0, (Hx y), (IH s); auto.
+Qed.
+
+Definition nonnil (nv : string * gval) : bool := negb (is_nil (snd nv)).
+Definition count1 (l : list (string * gval)) : bool := Nat.leb (List.length (filter nonnil l)) 1.
+Lemma count0_allnil l : List.length (filter nonnil l) = 0%nat -> forallb (fun nv => is_nil (snd nv)) l = true.
+Proof.
+  induction l as [|[n x] r IH]; simpl; auto. unfold nonnil at 1. simpl.
+  destruct (is_nil x); simpl; auto. discriminate.
+Qed.
+Lemma count1_cons n x r : count1 ((n, x) :: r) = true ->
+  if is_nil x then count1 r = true else forallb (fun nv => is_nil (snd nv)) r = true.
+Proof.
+  unfold count1. simpl. unfold nonnil at 1. simpl. destruct (is_nil x); simpl; auto.
+  intros H. apply count0_allnil. destruct (List.length (filter nonnil r)); auto. discriminate.
+Qed.
+
+Section Enc.
+  Variable ctx : schemas.
+  Hypothesis Hc : ctx_supported ctx = true.
+
+  Definition enc_sim (a : gval) : Prop :=
+    forall t b, ty_supported ctx t = true -> wt ctx t a = true -> wt ctx t b = true ->
+                vsim a b = true -> N (encode ctx t a) = N (encode ctx t b).
+
+  Lemma payload_or_self_eq t pt : payload_type ctx t = PTy pt -> payload_or_self ctx t = pt.
+  Proof. unfold payload_or_self. intros ->. reflexivity. Qed.
+
+  Lemma union_allnil_r : forall ar fr br,
+    all2 (keq vsim) ar br = true -> forallb (fun nv => is_nil (snd nv)) br = true ->
+    N (enc_union ctx fr ar) = JNull.
+  Proof.
+    induction ar as [|[n x] ar IH]; intros fr br E A.
+    - destruct fr; reflexivity.
+    - destruct fr as [|f fr]; [reflexivity|]. destruct br as [|[n' y] br]; simpl in E; try discriminate.
+      apply andb_true_iff in E. destruct E as [E1 E2]. unfold keq in E1. simpl in E1.
+      apply andb_true_iff in E1. destruct E1 as [_ E1].
+      simpl in A. apply andb_true_iff in A. destruct A as [A1 A2]. destruct y; try discriminate.
+      rewrite enc_union_cons. destruct (is_nil x).
+      + eapply IH; eauto.
+      + apply nilish_enc'. exact E1.
+  Qed.
+  Lemma union_allnil_l : forall ar fr br,
+    all2 (keq vsim) ar br = true -> forallb (fun nv => is_nil (snd nv)) ar = true ->
+    N (enc_union ctx fr br) = JNull.
+  Proof.
+    induction ar as [|[n x] ar IH]; intros fr br E A.
+    - destruct br; simpl in E; try discriminate. destruct fr; reflexivity.
+    - destruct br as [|[n' y] br]; simpl in E; try discriminate.
+      destruct fr as [|f fr]; [reflexivity|].
+      apply andb_true_iff in E. destruct E as [E1 E2]. unfold keq in E1. simpl in E1.
+      apply andb_true_iff in E1. destruct E1 as [_ E1].
+      simpl in A. apply andb_true_iff in A. destruct A as [A1 A2]. destruct x; try discriminate.
+      rewrite enc_union_cons. destruct (is_nil y).
+      + eapply IH; eauto.
+      + apply nilish_enc. exact E1.
+  Qed.
+
+  Lemma union_sim : forall fa fs fb,
+    Forall (fun kv => enc_sim (snd kv)) fa ->
+    forallb (fun f => ty_supported ctx (f_type f)) fs = true ->
+    wt_fields ctx fs fa = true -> wt_fields ctx fs fb = true ->
+    count1 fa = true -> count1 fb = true ->
+    all2 (keq vsim) fa fb = true ->
+    N (enc_union ctx fs fa) = N (enc_union ctx fs fb).
+  Proof.
+    intros fa fs fb H; revert fs fb; induction H as [|[n x] ar Hx Hr IH]; intros fs fb Hs Wa Wb Ca Cb E.
+    - destruct fb; simpl in E; try discriminate. reflexivity.
+    - destruct fs as [|f fr]; simpl in Wa; try discriminate.
+      destruct fb as [|[n' y] br]; simpl in Wb; try discriminate.
+      simpl in Hs. apply andb_true_iff in Hs. destruct Hs as [Hs1 Hs2].
+      apply andb_true_iff in Wa. destruct Wa as [Wa Wa3]. apply andb_true_iff in Wa. destruct Wa as [Wa1 Wa2].
+      apply andb_true_iff in Wb. destruct Wb as [Wb Wb3]. apply andb_true_iff in Wb. destruct Wb as [Wb1 Wb2].
+      simpl in E. apply andb_true_iff in E. destruct E as [E1 E2]. unfold keq in E1. simpl in E1.
+      apply andb_true_iff in E1. destruct E1 as [_ E1].
+      apply count1_cons in Ca, Cb. rewrite !enc_union_cons. simpl in Hx.
+      destruct (is_nil x) eqn:Nx, (is_nil y) eqn:Ny.
+      + apply IH; auto.
+      + destruct x; try discriminate. rewrite (nilish_enc _ _ _ E1).
+        eapply union_allnil_r; eauto.
+      + destruct y; try discriminate. rewrite (nilish_enc' _ _ _ E1).
+        symmetry. eapply union_allnil_l; eauto.
+      + apply Hx; auto.
+  Qed.
+
+  Lemma fields_sim : forall fa fs fb,
+    Forall (fun kv => enc_sim (snd kv)) fa ->
+    forallb (fun f => ty_supported ctx (f_type f)) fs = true ->
+    wt_fields ctx fs fa = true -> wt_fields ctx fs fb = true ->
+    all2 (keq vsim) fa fb = true ->
+    fold_right K [] (enc_fields ctx fs fa) = fold_right K [] (enc_fields ctx fs fb).
+  Proof.
+    intros fa fs fb H; revert fs fb; induction H as [|[n x] ar Hx Hr IH]; intros fs fb Hs Wa Wb E.
+    - destruct fb; simpl in E; try discriminate. destruct fs; reflexivity.
+    - destruct fs as [|f fr]; simpl in Wa; try discriminate.
+      destruct fb as [|[n' y] br]; simpl in Wb; try discriminate.
+      simpl in Hs. apply andb_true_iff in Hs. destruct Hs as [Hs1 Hs2].
+      apply andb_true_iff in Wa. destruct Wa as [Wa Wa3]. apply andb_true_iff in Wa. destruct Wa as [Wa1 Wa2].
+      apply andb_true_iff in Wb. destruct Wb as [Wb Wb3]. apply andb_true_iff in Wb. destruct Wb as [Wb1 Wb2].
+      simpl in E. apply andb_true_iff in E. destruct E as [E1 E2]. unfold keq in E1. simpl in E1.
+      apply andb_true_iff in E1. destruct E1 as [_ E1]. simpl in Hx.
+      simpl. rewrite (vsim_empty _ _ E1).
+      destruct (negb (f_required f) && is_empty_value y)%bool.
+      + apply IH; auto.
+      + simpl. unfold K at 1 3. simpl. rewrite (Hx _ _ Hs1 Wa2 Wb2 E1), (IH fr br); auto.
+  Qed.
+
+  Lemma encode_sim : forall a, enc_sim a.
+  Proof.
+    induction a using gval_ind'.
+    2-6: (intros t vb Hs Ha Hb E; rewrite vsim_leaf in E by reflexivity;
+          apply leaf_eq_eq in E; [subst vb; reflexivity|reflexivity]).
+    - (* GNil *)
+      intros t b Hs Ha Hb E. rewrite (nilish_enc _ _ _ E). reflexivity.
+    - (* GPtr *)
+      intros t b Hs Ha Hb E. destruct b; try discriminate.
+      destruct (wt_ptr_inv _ _ _ Ha) as [_ [_ [_ [_ Hwx]]]].
+      destruct (wt_ptr_inv _ _ _ Hb) as [_ [_ [_ [_ Hwy]]]].
+      simpl in E |- *. apply IHa; auto using supported_non_null.
+    - (* GSlice *)
+      intros t b Hs Ha Hb E.
+      destruct b as [| | | | | | |l'|l'| |]; try (destruct l; discriminate).
+      + rewrite (nilish_enc' _ _ _ E). reflexivity.
+      + destruct (wt_slice_inv _ _ _ Ha) as [Hany [Hptr [a0 [et [Hpt Hwl]]]]].
+        pose proof (payload_supported _ _ _ Hc Hs Hpt) as Hse. simpl in Hse.
+        destruct (cf_arr _ _ _ _ _ Hany Hptr Hpt Hb) as [X | [l2 [X Hwl']]]; inversion X; subst l2.
+        rewrite vsim_slice in E. simpl. rewrite (payload_or_self_eq _ _ Hpt).
+        unfold N at 1 2. rewrite !erase_arr, !map_map. f_equal. f_equal.
+        apply (map_sim (wt ctx et) vsim); auto.
+        eapply Forall_impl; [|exact H]. intros x Hx y W1 W2 F. apply Hx; auto.
+    - (* GMap *)
+      intros t b Hs Ha Hb E.
+      destruct b as [| | | | | | |l'|l'| |]; try (destruct l; discriminate).
+      + rewrite (nilish_enc' _ _ _ E). reflexivity.
+      + destruct (wt_map_inv _ _ _ Ha) as [Hany [Hptr [a0 [it [vt [Hpt [Hnd Hwl]]]]]]].
+        pose proof (payload_supported _ _ _ Hc Hs Hpt) as Hse. simpl in Hse.
+        apply andb_true_iff in Hse. destruct Hse as [_ Hse].
+        destruct (cf_map _ _ _ _ _ _ Hany Hptr Hpt Hb) as [X | [l2 [X [_ Hwl']]]]; inversion X; subst l2.
+        rewrite vsim_map in E. simpl. rewrite (payload_or_self_eq _ _ Hpt).
+        unfold N at 1 2. rewrite !erase_obj. f_equal. f_equal.
+        apply (obj_sim (fun kv => wt ctx vt (snd kv)) (encode ctx vt)); auto.
+        eapply Forall_impl; [|exact H]. intros x Hx y W1 W2 F. apply Hx; auto.
+    - (* GStruct *)
+      intros t b Hs Ha Hb E.
+      destruct b as [| | | | | | |l'|l'|l'|]; try discriminate; try (destruct l'; discriminate).
+      destruct (wt_struct_inv _ _ _ Ha) as [Hany [Hptr [a0 [dh [fs [Hpt [Hu Hwl]]]]]]].
+      pose proof (payload_supported _ _ _ Hc Hs Hpt) as Hse. simpl in Hse.
+      destruct (cf_struct _ _ _ _ _ _ Hany Hptr Hpt Hb) as [l2 [X [Hu' Hwl']]]; inversion X; subst l2.
+      rewrite vsim_struct in E.
+      rewrite !(encode_struct _ _ _ _ _ _ (payload_or_self_eq _ _ Hpt)).
+      unfold union_wt in Hu, Hu'.
+      destruct (union_scalars (TStruct a0 dh fs)), (union_refs (TStruct a0 dh fs)).
+      1-3: apply union_sim; auto.
+      unfold N. rewrite !erase_obj. f_equal. f_equal. apply fields_sim; auto.
+    - (* GAny *)
+      intros t b Hs Ha Hb E. destruct b as [| | | | | | |l'|l'| |]; try discriminate; try (destruct l'; discriminate).
+      simpl in E. apply json_eqb_eq in E. subst. reflexivity.
+  Qed.
+End Enc.
+
+Lemma json_eq_refl x : json_eq x x = true.
+Proof. apply json_eqb_refl. Qed.
+
+Lemma equals_implies_encode_eq_mod_empty_partial : forall ctx t a b,
+  (ctx_supported ctx = true /\ ty_supported ctx t = true /\ wt ctx t a = true) ->
+  (ctx_supported ctx = true /\ ty_supported ctx t = true /\ wt ctx t b = true) ->
+  keys_aligned a b = true -> eqc ctx t (t_nullable t) a b = true ->
+  json_eq_mod_empty (encode ctx t a) (encode ctx t b) = true.
+Proof.
+  intros ctx t a b [Hc [Hs Ha]] [_ [_ Hb]] K E.
+  rewrite (eqc_vsim ctx Hc a t b Hs Ha Hb K) in E.
+  pose proof (encode_sim ctx Hc a t b Hs Ha Hb E) as X. unfold N in X.
+  unfold json_eq_mod_empty. rewrite X. apply json_eq_refl.
+Qed.
+
+Lemma single_leaf_difference_detected_partial : forall ctx t a b,
+  (ctx_supported ctx = true /\ ty_supported ctx t = true /\ wt ctx t a = true) ->
+  (ctx_supported ctx = true /\ ty_supported ctx t = true /\ wt ctx t b = true) ->
+  keys_aligned a b = true ->
+  json_eq_mod_empty (encode ctx t a) (encode ctx t b) = false ->
+  eqc ctx t (t_nullable t) a b = false.
+Proof.
+  intros ctx t a b Ta Tb K D. destruct (eqc ctx t (t_nullable t) a b) eqn:E; auto.
+  rewrite (equals_implies_encode_eq_mod_empty_partial ctx t a b Ta Tb K E) in D. discriminate.
+Qed.
+
+Print Assumptions equals_refl.
+Print Assumptions equals_sym_refuted.
+Print Assumptions equals_sym_partial.
+Print Assumptions equals_trans_refuted.
+Print Assumptions equals_trans_partial.
+Print Assumptions equals_implies_encode_eq_mod_empty_refuted.
+Print Assumptions equals_implies_encode_eq_mod_empty_partial.
+Print Assumptions single_leaf_difference_detected_refuted.
+Print Assumptions single_leaf_difference_detected_partial.
+Print Assumptions encode_eq_implies_equals_refuted.
+Print Assumptions c13_nonvacuous.
